@@ -4,17 +4,15 @@ set -u
 patch="$1"; shift
 cd /repo || exit 2
 if ! git diff --quiet; then echo "/repo not clean"; exit 2; fi
-if ! git apply --3way "$patch" 2>/dev/null; then
-  git checkout -- . 2>/dev/null
-  if ! patch -p1 --fuzz=3 -s < "$patch"; then echo "PATCH FAILED"; git checkout -- .; git clean -fdq; exit 2; fi
+if ! git apply "$patch" 2>/dev/null; then
+  if ! patch -p1 --fuzz=3 -s < "$patch"; then echo "PATCH FAILED"; git reset -q --hard HEAD; git clean -fdq; exit 2; fi
 fi
-git reset -q 2>/dev/null
 export GOFLAGS=-mod=mod GOPROXY=off GOSUMDB=off GOTOOLCHAIN=local
-if ! go build ./... ; then echo "MUTANT DOES NOT BUILD"; git checkout -- .; exit 2; fi
+if ! go build ./... ; then echo "MUTANT DOES NOT BUILD"; git reset -q --hard HEAD; git clean -fdq; exit 2; fi
 cd /verif
 for p in "$@"; do
   out=$(./check "$p" --tier "${TIER:-quick}" 2>&1); rc=$?
   echo "== $p rc=$rc"; echo "$out" | grep -E "^(VIOLATION|KNOWN-FINDING|OK|ERROR)" | cut -c1-260 | head -4
 done
-cd /repo && git checkout -- . && git clean -fdq -e nothing >/dev/null 2>&1
+cd /repo && git reset -q --hard HEAD && git clean -fdq >/dev/null 2>&1
 git status --short | head -3
